@@ -5,5 +5,6 @@ CONSTANTS Files = {"a", "b"}
 INVARIANT Emit
 INVARIANT StackBounded
 INVARIANT NoDoubleLoad
+INVARIANT NoDoubleInclude
 PROPERTY Terminates
 PROPERTY ErrorKeeps
